@@ -190,8 +190,7 @@ def jobs(tier):
                 # transitional states must be last and are observed for 10 ms only
                 pass
             out.append(Job('C05', 'c05:h_single', {'dll': dll, 'cas': cas, 'listeners': ls, 'pdu2': False}, W=40, wall=120, validate=1))
-            if dll == 'j1939-21':
-                out.append(Job('C05', 'c05:h_single', {'dll': dll, 'cas': cas, 'listeners': ls, 'pdu2': True}, W=40, wall=120, validate=1))
+            out.append(Job('C05', 'c05:h_single', {'dll': dll, 'cas': cas, 'listeners': ls, 'pdu2': True}, W=40, wall=120, validate=1))
             for kind in (('cm', 'dt') if dll == 'j1939-21' else ('cm', 'dt', 'mpg')):
                 if not any(h in ('wait_veto', 'lost_waiting') for h, a in cas):
                     out.append(Job('C05', 'c05:h_foreign_tp', {'dll': dll, 'cas': cas, 'listeners': ls, 'kind': kind}, W=40, wall=120, validate=1))
@@ -226,6 +225,6 @@ def meta(tier):
                    'can.Message flag combinations (extended, remote, error) through the real MessageListener (concrete data bytes)',
                    'bystander observing a complete foreign 3-packet RTS/CTS session with symbolic payload',
                    'source address 0x42'],
-        'outside': ['source addresses other than 0x42', 'PDU2 single frames on the J1939-22 stack (see DESIGN, observation O-FD-PDU2)'],
+        'outside': ['source addresses other than 0x42'],
         'assumptions': ['address held by a CA is derived from its claim history, not from the CA object'],
     }
